@@ -297,7 +297,7 @@ _quick("C13", "C13_calllist", "CALL LIST_LOCK / LIST_LOCKED / LIST_WAIT through 
 
 _quick("C18", "C18_adminwills", "a binary connection switches to the text protocol with ADMIN, registers 0..1 wills in binary form before and 0..3 wills in text form after the switch (real TextServerProtocol.Process over a scripted stream) and the stream ends; after BinaryServerProtocol.Close each will has been executed exactly once, in order", ["-witness", "3"])
 
-_quick("C07", "C07_percent", "a hold with the share-of-expiry persistence flag (0x1000, 30 %) and E in {20, 140, 200, 600} s (delay 6 / 42 / 60 / 180 s), clock advanced second by second through the real sweeps to delay + 15 s: the hold has been persisted", ["-witness", "4"])
+_quick("C07", "C07_percent", "a hold with the share-of-expiry persistence flag (0x1000, 30 %) and E in {20, 140, 200, 600, 852, 1000} s (delay 6 / 42 / 60 / 180 / 255 / 300 s: the last two do not fit the byte the server keeps it in), clock advanced second by second through the real sweeps to delay + 15 s: the hold has been persisted", ["-witness", "4"])
 
 _quick("C12", "C12_remote_newer", "the remote REPL_PROPOSAL handler on an acceptor of weight 0..2, data-bearing or arbiter, whose current log position and the proposal's are each one of 4 positions (file index 1..2, offset 1 or 5; the acceptor's own member entry is stale): accepted only if the acceptor is an arbiter or its current log is not newer", ["-witness", "8"], reach=["end", "accepted"])
 
@@ -472,3 +472,8 @@ _quick("C09", "C09_twowriters", "two writers in Aof.PushLock, the harness as sch
 _quick("C04", "C04_window", "A holds, B is queued (symbolic priority flag and priority), A unlocks; a third client's LOCK (symbolic priority flag and priority) arrives between the release of the key's mutex and the wake-up pass (sent from inside the unlock's reply callback, which runs exactly there): unless its priority is strictly higher it must not be granted ahead of B", ["-witness", "1"], reach=["no-bypass"])
 
 _quick("C01", "C01_tombstone", "a key whose hold has ended and whose manager lives on through the wheel's reference; right before a new request acquires the manager's mutex (vfLockHook) the sweep retires the manager; the request is granted; a third request (Count 0, Timeout 0) must be refused and the holder's unlock accepted — for an ordinary key and for the key of 16 zero bytes", [], reach=["manager-lingers"], native=False)
+
+_quick("C05", "C05_race", "a queued request (T = 3 s) behind a holder; in the deadline tick, right before the k-th acquisition of the key's mutex (k = 1..4, vfLockHook) the holder's UNLOCK hands the key over: exactly one terminal reply; SUCCED means the request holds the key afterwards (no TIMEOUT after a grant), TIMEOUT means it holds nothing", [], reach=["end", "raced", "granted"], native=False)
+_quick("C16", "C16_twodb", "a log shared by two databases (ids 0 and 1, or 0 and 3): every program of 4 persisted operations out of {LOCK / UNLOCK in the first / in the second database}, rotation, the real compaction, restart: each database holds exactly what it held", ["-witness", "50"], reach=["end", "held"])
+_quick("C16", "C16_startup", "compaction at start-up: the real Aof.LoadAndInit on the log of a leader with holds in two databases; whenever the starting thread blocks the harness lets ONE more persistence-channel worker run until it blocks (database 0 first or database 1 first; vfBlockHook, vfRunToBlock), the start-up compaction runs right after LoadAndInit returns, the other workers after it; a second restart recovers every hold", [], reach=["end", "restarted"], native=False)
+_quick("C07", "C16_startup", "(also under C16) a restart whose start-up compaction runs while the log's replay is still queued in a persistence channel, then another restart: every persisted live hold is held again", [], reach=["end"], native=False)
